@@ -110,7 +110,11 @@ class Check:
             tb = traceback.extract_tb(e.__traceback__)
             inner = tb[-1].filename if tb else ""
             text = "".join(traceback.format_exception(type(e), e, e.__traceback__))[-3000:]
-            if inner.startswith(loader.SRC) or isinstance(e, loader.MissingCode):
+            if isinstance(e, AttributeError) and _is_harness_obj(getattr(e, "obj", None)):
+                # the code read an attribute that the harness stub of a collaborator does not model: a gap of the
+                # harness, not a statement about the code - never a violation
+                rec.update(verdict=ERROR, detail="harness gap: stub object lacks attribute %r\n%s" % (getattr(e, "name", "?"), text))
+            elif inner.startswith(loader.SRC) or isinstance(e, loader.MissingCode):
                 rec.update(verdict=REFUTED, key="unexpected-%s" % type(e).__name__,
                            detail="exception raised inside the code under contract while generating the "
                                   "obligation (no contract allows it):\n" + text)
@@ -309,6 +313,13 @@ def _load_baseline():
         return {}
     with open(p) as f:
         return json.load(f)
+
+
+def _is_harness_obj(obj):
+    if obj is None:
+        return False
+    t = type(obj)
+    return t.__module__.split(".")[0] in ("contracts", "pyvc", "types") or t.__name__ in ("_Obj", "SimpleNamespace")
 
 
 def run_replay(path):
